@@ -48,3 +48,15 @@ Proof.
   left. split; [reflexivity|].
   constructor; [split; cbn; lia|]. constructor; [split; cbn; lia|]. constructor.
 Qed.
+
+(* Marshal loses nothing: two well-formed packets (headers) with the same wire image are the same
+   packet (header) - no field, flag, CSRC, extension element or padding size is dropped or folded *)
+Theorem C01_packet_marshal_injective : forall p1 p2 bs, wf_packet p1 -> wf_packet p2 ->
+  packet_marshal p1 = Ok bs -> packet_marshal p2 = Ok bs -> p1 = p2.
+Proof. exact packet_marshal_injective. Qed.
+Print Assumptions C01_packet_marshal_injective.
+
+Theorem C01_header_marshal_injective : forall h1 h2 bs, wf_header h1 -> wf_header h2 ->
+  header_marshal h1 = Ok bs -> header_marshal h2 = Ok bs -> h1 = h2.
+Proof. exact header_marshal_injective. Qed.
+Print Assumptions C01_header_marshal_injective.
